@@ -278,6 +278,10 @@ pub async fn read_http_request<const BUF_SIZE: usize>(
         return Err(HttpError::InvalidContentLength);
     }
     let content_length = if let Some(s) = content_lengths.first() {
+        // Content-Length = 1*DIGIT.  `str::parse` would also accept a leading '+'.
+        if !s.bytes().all(|b| b.is_ascii_digit()) {
+            return Err(HttpError::InvalidContentLength);
+        }
         Some(s.parse().map_err(|_| HttpError::InvalidContentLength)?)
     } else {
         None
